@@ -886,12 +886,50 @@ def r2(ctx):
                 nm = (names & {'min_size', 'max_size'}).pop()
                 rels[nm] = op
                 atoms[nm] = c.bb
-    good = rels.get('min_size') == '>=' and rels.get('max_size') == '<='
-    ctx.check(good, rule, cb.path + '|relations', cb.where(), 'len >= min_size, len <= max_size', 'size relations are %s (expected len >= min_size and len <= max_size)' % rels)
-    if len(atoms) == 2:
-        tt = truth_table(cb, atoms)
-        ok, why = table_equals(tt, lambda a: a['min_size'] and a['max_size'])
-        ctx.check(ok, rule, cb.path + '|conjunction', cb.where(), 'kept iff both hold (%s)' % why, 'the two size tests are not combined with AND: %s' % why)
+    # the canonical relations are len >= min_size and len <= max_size; their negations (len < min_size, len > max_size) decide the same thing
+    # with the branches swapped - which branch keeps the file is read off the table below
+    canon = {'min_size': {'>=': True, '<': False}, 'max_size': {'<=': True, '>': False}}
+    good = rels.get('min_size') in canon['min_size'] and rels.get('max_size') in canon['max_size']
+    ctx.check(good, rule, cb.path + '|relations', cb.where(), 'len %s min_size, len %s max_size' % (rels.get('min_size'), rels.get('max_size')),
+              'size relations are %s (expected len >= min_size and len <= max_size, or their negations: the bounds themselves are inside)' % rels)
+    if len(atoms) == 2 and good:
+        # what "kept" means: the closure is a predicate (it returns the bool and is handed to filter / retain), or it stores the file itself
+        is_pred = cb.local_ty(0) == 'bool'
+        target = None
+        if is_pred:
+            cr = closure_creation(lib, cb.path)
+            used = False
+            if cr:
+                par = cr[0]
+                fl = forward_locals(par, cr[2]['p'][0])
+                used = any(op_local(a) in fl for k in par.calls(r'::filter$|::retain$|::take_while$') for a in k.args)
+            ctx.check(used, rule, cb.path + '|predicate-applied', cb.where(), 'the size predicate is handed to filter()', 'the closure that compares the length with the bounds is not applied as a filter')
+        else:
+            store = [k for x in [cb] for k in x.calls(r'Vec::<T, A>::push$|Vec<.*>::push$|::push$|::send$|::insert$')]
+            if not store:
+                ctx.missing(rule, 'the store of an accepted file in the scanning closure', cb.where())
+            else:
+                target = store[0].bb
+        tt = truth_table(cb, atoms, target_bb=target) if (is_pred or target is not None) else None
+        want = lambda a: (a['min_size'] == canon['min_size'][rels['min_size']]) and (a['max_size'] == canon['max_size'][rels['max_size']])
+        if tt is not None and target is not None:
+            # other tests (the metadata could be read, the file is not the report itself) also decide whether the file is stored: with the size
+            # tests right the store MAY be reached, with one of them wrong it is NEVER reached
+            ok, why = True, '%d rows' % len(tt[1])
+            for key_, res_ in tt[1].items():
+                a_ = dict(zip(tt[0], key_))
+                try:
+                    exp_ = want({k_: v_ for k_, v_ in a_.items()}) if None not in a_.values() else (False if any(v_ is not None and v_ != canon[k_][rels[k_]] for k_, v_ in a_.items()) else None)
+                except TypeError:
+                    exp_ = None
+                may_ = (res_ is True) or (isinstance(res_, str) and 'True' in res_)
+                if exp_ is False and may_:
+                    ok, why = False, 'for %s the file is stored' % {k_: v_ for k_, v_ in a_.items() if v_ is not None}
+                if exp_ is True and not may_:
+                    ok, why = False, 'for %s the file is never stored' % a_
+        else:
+            ok, why = table_equals(tt, want) if tt is not None else (False, 'no table')
+        ctx.check(ok, rule, cb.path + '|conjunction', cb.where(), 'kept iff len >= min_size and len <= max_size (%s)' % why, 'the two size tests are not combined as min_size <= len <= max_size: %s' % why)
     # the bounds come from the options; the default upper bound is FileLen::MAX
     mx = [(bi, s) for bi, blk in enumerate(sf.blocks) for s in blk['stmts'] if sf.local_name(s['p'][0]) == 'max_size' and not s['p'][1]]
     mxc = [c for c in sf.calls(r'Option(::)?<.*>::unwrap_or$') if sf.local_name(c.dest[0]) == 'max_size']
